@@ -40,6 +40,8 @@ type faultBackend struct {
 	forceFail      int // fail the next n calls (consecutive failures)
 	SleptMs        int64
 	suppress       bool
+	inFlight       int
+	anyFailed      bool
 	enum           bool // fault-enumeration run (C13): exactly the failOrd-th backend call fails
 	failOrd        int
 	consumed       map[string]int // hand states that a successful step has already been applied to
@@ -79,6 +81,8 @@ func (b *faultBackend) do(kind string, in *pokerface.GameState, f func() (*poker
 	c := b.w.c
 	b.ord++
 	b.callsInCall++
+	b.inFlight++
+	defer func() { b.inFlight-- }()
 	call := &beCall{ord: b.ord, kind: kind, atMs: c.NowMs(), engine: engineKinds[kind]}
 	b.calls = append(b.calls, call)
 	stale := false
@@ -121,6 +125,7 @@ func (b *faultBackend) do(kind string, in *pokerface.GameState, f func() (*poker
 			simrt.Sleep(0, time.Duration(d)*time.Millisecond)
 		}
 		call.failed = true
+		b.anyFailed = true
 		b.injectedInCall++
 		c.Fault("F4_backend_error_" + kind)
 		c.Logf("BACKEND #%d %s -> injected failure", b.ord, kind)
